@@ -175,6 +175,14 @@ PROP_META = {
         "outside": "non-empty macro sets (HashSet insert explodes), manual composition of steps",
         "assumptions": ["define_macro replaced by ghost recorder", "RandomState::new fixed"],
     },
+    "C04": {
+        "bounds": "every rule function as a unit over streams of <= N (2..7) symbolic non-trivia tokens of any kind; "
+                  "callee sentences are single placeholder tokens with kind in FIRST(callee)",
+        "outside": "typed accessors of ast.rs, real .td corpus, manual composition over the derivation, "
+                   "error suppression after an earlier error (entry with is_after_error is only checked for panics)",
+        "assumptions": ["callee contracts (ok/empty/fail, FIRST, CONT maximal munch) from lib/grammar.py",
+                        "rowan builder ghost, ParserBase::{error,expect,at_set,skip} stubbed by verified summaries"],
+    },
     "C13": {
         "bounds": "all pairs of record-free types of list-nesting depth <= 2 (thorough 3), bits widths 0..3",
         "outside": "pairs involving Type::Record (class hierarchy lookup through IndexMap/arena: measured "
